@@ -56,15 +56,32 @@ def run_c03(args):
     except Exception as e:  # noqa
         return {'reproduced': True, 'observed': repr(e)}
     v = WD.check_values(sim, c, stim, args['n'], args['opts'])
+    if args.get('stim2'):
+        v += reuse_values(sim, c, _stim(args['stim2']), args['n'], args['opts'])
     return {'reproduced': bool(v), 'violated': v[:3]}
+
+
+def _stim(d):
+    return {int(k): [(int(a), list(b)) for a, b in v] for k, v in d.items()}
+
+
+def reuse_values(sim, c, stim2, n, opts):
+    """the same simulator instance is given a second stimulus (through s / s_to_c): the results must be those of the second stimulus alone"""
+    try:
+        WD.apply_stim(sim, stim2)
+        sim.c_prop()
+        sim.c_to_s()
+    except Exception as e:  # noqa
+        return [('reuse:exception', repr(e))]
+    return [('reuse:' + cl, 'second stimulus on the same instance: ' + msg) for cl, msg in WD.check_values(sim, c, stim2, n, opts)]
 
 
 def part_c03(tier, seed):
     b = BoundedPart('C03-settled-values', ['kyupy.wave_sim.WaveSim (s_to_c, c_prop, c_to_s)', 'kyupy.wave_sim._wave_eval', 'kyupy.sim.SimOps.__init__'],
                     'shared circuit space (1-gate family over all kinds x unconnected-pin subsets, 2-gate chains, special shapes, seeded random circuits) x random delay '
                     'arrays >= 0 (4 independent polarity entries, grid 1/4) x capacities {4, 8, 16, per-line mixed} x stimuli with 0..3 transitions per input x batch '
-                    'sizes 1..5 x {c_reuse} x {strip_forks}; every line waveform well formed, init/final = netlist oracle, captured s[3]/s[6] the same; '
-                    'distinct = (circuit, options, capacities); non-trivial = some waveform has a transition; overflow cases counted separately',
+                    'sizes 1..5 x {c_reuse} x {strip_forks}; every line waveform well formed, init/final = netlist oracle, captured s[3]/s[6] the same; a second stimulus on the same '
+                    'instance (history) gives the values of that stimulus; distinct = (circuit, options, capacities); non-trivial = some waveform has a transition; overflow cases counted separately',
                     f'exhaustive-small family + {60 if tier == "quick" else 1200} seeded circuits')
     overflow = 0
     for c, sig in wave_circuits(tier, seed):
@@ -96,6 +113,11 @@ def part_c03(tier, seed):
                             'bounded.wave_parts:run_c03', args, function='kyupy.sim.SimOps.__init__')
             for clause, msg in WD.check_values(sim, c, stim, n, opts):
                 b.violation(f'{key}:{clause}', f'{clause} on {sig} {opts}: {msg}', 'bounded.wave_parts:run_c03', args, function='kyupy.wave_sim._wave_eval')
+            # history: a second stimulus (at most one transition per input, i.e. purely through s_to_c) on the same instance
+            stim2 = WD.make_stim(rng, c, n, max_trans=1)
+            args2 = dict(args, stim2={str(k): v for k, v in stim2.items()})
+            for clause, msg in reuse_values(sim, c, stim2, n, opts):
+                b.violation(f'{key}:{clause}', f'{clause} on {sig} {opts}: {msg}', 'bounded.wave_parts:run_c03', args2, function='kyupy.wave_sim.WaveSim.s_to_c')
     b.notes.append(f'cases with an overflow indicator set: {overflow}')
     return b
 
@@ -103,11 +125,12 @@ def part_c03(tier, seed):
 # ------------------------------------------------------------------------------------------------------------- C04
 def run_c04(args):
     c, delays, stim = _load(args)
-    v = c04_checks(c, delays, stim, args['n'], args['opts'], args['caps'], args.get('shift', 0.0), args.get('scale', 1.0), args.get('mono', False))
+    v = c04_checks(c, delays, stim, args['n'], args['opts'], args['caps'], args.get('shift', 0.0), args.get('scale', 1.0), args.get('mono', False),
+                   stim2=_stim(args['stim2']) if args.get('stim2') else None)
     return {'reproduced': bool(v), 'violated': v[:3]}
 
 
-def c04_checks(c, delays, stim, n, opts, caps, shift, scale, mono):
+def c04_checks(c, delays, stim, n, opts, caps, shift, scale, mono, stim2=None):
     out = []
     try:
         sim = WD.run(c, delays, stim, n, opts, caps)
@@ -115,6 +138,16 @@ def c04_checks(c, delays, stim, n, opts, caps, shift, scale, mono):
         return [('exception', repr(e))]
     out += WD.check_sta(sim, c, delays, stim, n, opts)
     base = WD.all_waves(sim, c, n)
+    base_summary = WD.summary(sim, (3, 6)).copy()
+    if stim2 is not None:
+        # history: the same instance gets a second stimulus through s_to_c; its transitions must lie in the window of the second stimulus
+        try:
+            WD.apply_stim(sim, stim2)
+            sim.c_prop()
+            sim.c_to_s()
+            out += [('reuse:' + cl, 'second stimulus on the same instance: ' + msg) for cl, msg in WD.check_sta(sim, c, delays, stim2, n, opts)]
+        except Exception as e:  # noqa
+            out.append(('reuse:exception', repr(e)))
     W = WD.K()
     if mono:
         for (l, lane), w in base.items():
@@ -134,7 +167,7 @@ def c04_checks(c, delays, stim, n, opts, caps, shift, scale, mono):
             if [float(np.float32(x)) for x in want] != w2[k][0]:
                 out.append(('shift', f'line {k[0]} lane {k[1]}: inputs shifted by {shift}: {w[0]} -> {w2[k][0]}'))
                 break
-        if not np.array_equal(WD.summary(sim, (3, 6)), WD.summary(s2, (3, 6))):
+        if not np.array_equal(base_summary, WD.summary(s2, (3, 6))):
             out.append(('shift', 'captured initial/final values changed under a shift'))
     if scale != 1.0:
         s3 = WD.run(c, delays, stim, n, opts, caps, scale=scale)
@@ -154,7 +187,7 @@ def part_c04(tier, seed):
                     'circuit space x delay arrays >= 0 on the grid 1/4 x multi-transition stimuli (0..3 per input) x capacity 16/8 (c_reuse off so that every waveform is '
                     'readable): every finite entry inside the static-timing window computed spec-side from the stimulus and the per-line min/max delays; the same run '
                     'with all input times shifted by +-2^k, and with all times and delays scaled by 2^+-k, compared entry by entry; polarity-independent delays -> strictly '
-                    'increasing time stamps; distinct = (circuit, delays kind, transform)', f'exhaustive-small family + {60 if tier == "quick" else 1200} seeded circuits')
+                    'increasing time stamps; a second stimulus (<= 1 transition per input, through s_to_c) on the same instance stays inside its own window; distinct = (circuit, delays kind, transform)', f'exhaustive-small family + {60 if tier == "quick" else 1200} seeded circuits')
     for c, sig in wave_circuits(tier, seed):
         rng = random.Random(sseed(('c04', str(sig), seed)) & 0xfffffff)
         for mono in (False, True):
@@ -165,9 +198,10 @@ def part_c04(tier, seed):
             caps = rng.choice([8, 16])
             shift = rng.choice([0.5, 2.0, 8.0, -1.0, 64.0])
             scale = rng.choice([2.0, 0.5, 4.0, 0.25, 2.0 ** -20, 2.0 ** -24, 2.0 ** 20, 2.0 ** -16])
-            args = replay_args(c, delays, stim, n, opts, caps, shift=shift, scale=scale, mono=mono)
+            stim2 = WD.make_stim(rng, c, n, max_trans=1)
+            args = replay_args(c, delays, stim, n, opts, caps, shift=shift, scale=scale, mono=mono, stim2={str(k): v for k, v in stim2.items()})
             b.case((G.describe(c)['nodes'], G.describe(c)['lines'], mono), True, sample={'circuit': str(sig), 'polarity_independent': mono, 'shift': shift, 'scale': scale})
-            for clause, msg in c04_checks(c, delays, stim, n, opts, caps, shift, scale, mono):
+            for clause, msg in c04_checks(c, delays, stim, n, opts, caps, shift, scale, mono, stim2=stim2):
                 b.violation(f'bounded:C04:{clause}', f'{clause} on {sig}: {msg}', 'bounded.wave_parts:run_c04', args, function='kyupy.wave_sim._wave_eval')
     return b
 
